@@ -102,6 +102,19 @@ def strip_comments(src):
     return "".join(out)
 
 
+def leancheck(prop_id):
+    """thorough tier: `leanchecker` (the toolchain's independent re-checker of compiled .olean files)
+    replays the declarations of the property's theorem modules through the kernel.  Returns problems."""
+    mods = sorted("AseProofs.Props." + os.path.basename(f)[:-5]
+                  for f in glob.glob(os.path.join(LEAN, "AseProofs", "Props", prop_id + "*.lean")))
+    if not mods:
+        return []
+    r = subprocess.run(["lake", "env", "leanchecker"] + mods, cwd=LEAN, capture_output=True, text=True)
+    if r.returncode != 0:
+        return [f"leanchecker rejects {' '.join(mods)}: {(r.stdout + r.stderr)[-600:]}"]
+    return []
+
+
 def audit(prop_id, whitelist_native=()):
     """#print axioms on every theorem registered for the property + source grep.
     Returns (obligations, discharged, problems, theorem names)."""
